@@ -149,7 +149,8 @@ def gen_calls(rng, R: int, n_envs: int, widen: bool):
         stop_at = None
         if rng.chance(0.25):
             stop_at = rng.randint(1, max(1, (T + n_envs - 1) // n_envs + 2))
-        calls.append({"total": T, "reset": reset, "stop_at": stop_at})
+        # `set_env(env)` in front of a later call: resets the environment at the next learn(), must not touch any clock
+        calls.append({"total": T, "reset": reset, "stop_at": stop_at, "set_env": bool(calls and rng.chance(0.3))})
     return calls
 
 
@@ -450,6 +451,8 @@ def run_impl(case):
         for call in case["calls"]:
             trace.clear()
             cb = make_callback(trace, call["stop_at"])
+            if call.get("set_env"):
+                model.set_env(model.get_env())
             model.learn(call["total"], callback=cb, reset_num_timesteps=call["reset"])
             tr = [list(e) for e in trace]
             opt_total += sum(1 for e in tr if e[0] == "op" and e[1] == "main")
